@@ -411,6 +411,51 @@ func genNames(r *wire.Rng, allowEmpty bool) []string {
 	}
 }
 
+// genWarm scripts the reconnect order "EDS before CDS" (property C05, envoyproxy/envoy#13009): the proxy re-sends
+// its EDS subscription, is answered, then sends CDS; the clusters it gets may differ from the ones it retained
+// (deleted / added while it was away), and the EDS subscription it re-sends for its warming clusters carries the
+// current nonce and a name list that is equal to, a subset of, a superset of or overlapping with the recorded one.
+func genWarm(r *wire.Rng, out *wire.Out) {
+	oldNonce := func() string { return wire.Pick(r, []string{"", "", "old7", "n1"}) }
+	names0 := wire.Subset(r, nameUniverse, 1, 2)
+	if len(names0) == 0 {
+		names0 = []string{"a"}
+	}
+	out.Line("req", "EDS", wire.EncList(names0), wire.Enc(oldNonce()), "-")
+	out.Line("send", "EDS", wire.Enc("n1"), "1")
+	if r.Chance(1, 2) {
+		out.Line("req", "EDS", wire.EncList(names0), wire.Enc("n1"), "-") // ACK
+	}
+	cdsNames := []string{}
+	if r.Chance(1, 3) {
+		cdsNames = []string{"*"}
+	}
+	out.Line("req", "CDS", wire.EncList(cdsNames), wire.Enc(oldNonce()), "-")
+	out.Line("send", "CDS", wire.Enc("n2"), "1")
+	if r.Chance(1, 2) {
+		out.Line("req", "CDS", wire.EncList(cdsNames), wire.Enc("n2"), "-") // ACK
+	}
+	var names1 []string
+	switch r.Intn(4) {
+	case 0:
+		names1 = append([]string(nil), names0...)
+	default:
+		names1 = wire.Subset(r, nameUniverse, 1, 2)
+		if len(names1) == 0 {
+			names1 = []string{wire.Pick(r, nameUniverse)}
+		}
+	}
+	if r.Chance(1, 2) {
+		sort.Sort(sort.Reverse(sort.StringSlice(names1)))
+	}
+	out.Line("req", "EDS", wire.EncList(names1), wire.Enc("n1"), "-") // the re-sent subscription for the warming clusters
+	out.Line("send", "EDS", wire.Enc("n3"), "1")
+	out.Line("req", "EDS", wire.EncList(names1), wire.Enc("n3"), "-") // ACK of it: silent again
+	if r.Chance(1, 3) {
+		out.Line("req", "EDS", wire.EncList(wire.Subset(r, nameUniverse, 1, 2)), wire.Enc("n3"), "-")
+	}
+}
+
 func gen(stream string, seed uint64, n int, outp string) {
 	out := wire.Create(outp)
 	defer out.Close()
@@ -418,6 +463,10 @@ func gen(stream string, seed uint64, n int, outp string) {
 	for c := 0; c < n; c++ {
 		r := root.Fork()
 		out.Line("case", strconv.Itoa(c), stream)
+		if stream == "warm" {
+			genWarm(r, out)
+			continue
+		}
 		// small universes make collisions (same type, same nonce) likely
 		types := typeOrder
 		if r.Chance(2, 3) {
@@ -610,6 +659,15 @@ func oracle(stream, in, outp string) {
 				}
 				if len(added) == 0 && len(removed) == 0 && !prev.AlwaysRespond && responded {
 					fail("ack-silent", res)
+				}
+				if prev.AlwaysRespond {
+					// the watch was marked by NewWatchedResource of the type it warms (CDS -> EDS): this is the
+					// subscription Envoy re-sends for its warming clusters, every listed name may be waiting, so the
+					// answer has to cover all of them (a full generation), whatever changed in the list
+					parts := strings.SplitN(res, " ", 3)
+					if !responded || len(parts) < 2 || len(wire.DecList(parts[1])) != 0 {
+						fail("warming-request-answered-in-full", res)
+					}
 				}
 				if cur == nil || !sameSet(cur.ResourceNames, names) {
 					fail("record-matches-request", res)
